@@ -153,7 +153,7 @@ def _quic_grid():
 
 
 def tls_strategy(tier):
-    deliv = strategies.tcp_delivery(modes=("cuts", "cuts", "flight", "rec"), dups=True, moves=False)
+    deliv = strategies.tcp_delivery(modes=("cuts", "cuts", "flight", "rec"), dups=True, moves=True)
     return strategies.single_tls_scenario(max_records=8, max_len=800 if tier == "quick" else 4000, delivery=deliv).map(
         lambda sc: dict(sc, tseed=1 + sc["tseed"]))
 
